@@ -12,6 +12,8 @@ def _has8(rle):
 
 def _c18_nontrivial(cf):
     # a literal (either kind) or an 8-bit string was emitted / asked for
+    if cf[2] == "seq":
+        return True
     if cf[2] != "cmd":
         return False
     return cf[9] != "-" or "2b7d0d0a" in cf[8] or _has8(cf[6])
@@ -22,7 +24,7 @@ CONFIG = dict(
                    "talking to a scripted server over an in-memory connection: for one command per fresh client, the exact bytes the client "
                    "wrote (delimited by a closing NOOP), the number of client bytes on the connection each time the server answered a "
                    "synchronising literal header (continuation request, tagged NO, tagged BAD), whether the client closed the connection, "
-                   "and the command's result class; plus CapSet.Has on every subset of the capabilities that drive an implication",
+                   "and the command's result class (also for a second command on the same connection after a refused one); plus CapSet.Has on every subset of the capabilities that drive an implication",
     rule="EXHAUSTIVE over the decision inputs: capability sets {IMAP4rev1; +LITERAL-; +LITERAL+; IMAP4rev2; IMAP4rev1+IMAP4rev2; "
          "+LITERAL+ and LITERAL-} x UTF8=ACCEPT enabled or not (real ENABLE exchange) x string class {atom-like, with spaces, quote/backslash, "
          "valid UTF-8, invalid 8-bit, NUL, CR, LF, CR LF inside, empty} x length {1, 4095, 4096, 4097} through one argument of every encoder "
@@ -34,7 +36,8 @@ CONFIG = dict(
          "UNKEYWORD, MODSEQ, NOT, OR), UID SEARCH, STORE, SORT, THREAD (thorough: the full grid everywhere and 20000 random argument "
          "vectors); commands with two or three literal-bearing arguments. Every case whose command contains k synchronising literals is run "
          "with the server answering: + at once; + after a pause; tagged NO; tagged BAD; and for k >= 2 also + then NO / BAD at the second. "
-         "CapSet.Has: all 512 subsets of 9 capabilities x 21 queried names. Non-trivial = a literal or an 8-bit argument was involved; "
+         "Sequences: a command with 2-3 literal-bearing arguments whose first or second literal is refused, followed on the same connection by a "
+         "command with a synchronising literal that the server accepts (216 combinations). CapSet.Has: all 512 subsets of 9 capabilities x 21 queried names. Non-trivial = a literal or an 8-bit argument was involved; "
          "distinct = different case line",
     nontrivial=_c18_nontrivial,
     exhaustive=True,
@@ -44,7 +47,7 @@ CONFIG = dict(
                  "atoms (tag, command names, flags/keywords, fixed option words) are not judged beyond tokenisation: the property speaks about quoted strings and literals",
                  "NUL inside a literal payload is not judged (the property text does not mention it)",
                  "invalid keywords make the client close the connection before anything is flushed; the model says so under the assumption that fewer than 4096 bytes were pending (bufio)",
-                 "one command at a time holds the encoder; a stale continuation request left by a refused command (reported to the integrator, liveness) is outside this property"],
+                 "commands are issued one after the other (no pipelining of the probe with other literal-bearing commands; concurrent use is C13)"],
     leanchecker=True,
     level_text="proof: for every capability set, every enabled set and every string, the mirrored Encoder.String / commandEncoder.Literal "
                "decision emits {n+} only where RFC 7888 allows it and quotes a string only when it has no NUL/CR/LF and 8-bit bytes only "
